@@ -50,8 +50,15 @@ def check(prop, tier, seed):
         for which in ("code", "eeprom"):
             for n in lengths(tier):
                 i = len(jobs)
-                jobs.append({"k": "hex", "id": i, "which": which, "n": n, "seed": (seed + n) % 7, "path": os.path.join(d, "f%d.hex" % i)})
+                jobs.append({"k": "hex", "id": i, "which": which, "n": n, "seed": (seed + n) % 7, "path": os.path.join(d, "f%d.hex" % i),
+                             "prefill": 0 if n % 5 else (n // 16 + 40)})       # every fifth file replaces a longer, older file
                 meta.append((which, n, (seed + n) % 7))
+            # contents with long runs: erased memory (all FF), all zero, the pattern with erased 16-byte rows
+            for sd in (7, 8, 9):
+                for n in list(range(0, 100)) + [255, 256, 257, 600, 4096, 65535, 65536, 65537, 65536 + 48]:
+                    i = len(jobs)
+                    jobs.append({"k": "hex", "id": i, "which": which, "n": n, "seed": sd, "path": os.path.join(d, "f%d.hex" % i)})
+                    meta.append((which, n, sd))
         res = run_jobs(jobs, watchdog=120)
         events = []
         for i, (which, n, sd) in enumerate(meta):
@@ -61,7 +68,7 @@ def check(prop, tier, seed):
             if r["r"] == "ok":
                 os.remove(r["path"])
         # binding self-test: flip one data byte / one address / drop a record / append a second EOF
-        good = next(e for e in events if e["res"] == "ok" and e["n"] == 100)
+        good = next(e for e in events if e["res"] == "ok" and e["n"] == 100 and e["seed"] < 7)
         can = []
         c = copy.deepcopy(good); c["recs"][2]["data"][3] ^= 1; c["recs"][2]["sum"] = (c["recs"][2]["sum"] - 1) % 256; can.append(c)
         c = copy.deepcopy(good); c["recs"][2]["sum"] ^= 1; can.append(c)
@@ -101,9 +108,10 @@ def check(prop, tier, seed):
         v.coverage.update({
             "states": stats["states"] + mc["states"], "transitions": stats["transitions"] + mc["transitions"],
             "traces_validated_against_impl": len(events), "records_replayed": nrec,
-            "evaluations": len(events), "distinct_nontrivial": len({(e["which"], e["n"]) for e in events if e["n"] > 0}),
-            "rule": "every image length 0..600 and every length within 17 bytes of each 64 KiB boundary up to %d KiB, contents IHex!Img(seed, i), "
-                    "for both writers; distinct = distinct (writer, length)" % (128 if tier == "quick" else 512),
+            "evaluations": len(events), "distinct_nontrivial": len({(e["which"], e["n"], e["seed"]) for e in events if e["n"] > 0}),
+            "rule": "every image length 0..600 and every length within 17 bytes of each 64 KiB boundary up to %d KiB, contents IHex!Img(seed, i) "
+                    "(seven all-values patterns; erased memory, all zero and erased rows for lengths 0..99 and boundaries), every fifth file written over "
+                    "a longer older file, for both writers; distinct = distinct (writer, length, contents)" % (128 if tier == "quick" else 512),
             "largest_image": max(e["n"] for e in events),
             "model_checking_of_spec": dict(mc, theorems="RoundTrip: the reference writer's output reproduces the image for all lengths 0..70, record lengths 2..5, "
                                                         "block sizes 16/32; Rejects: six typical writer defects are rejected"),
